@@ -47,9 +47,9 @@ OL_MC = [
     dict(name="mc2", tiers=["quick"], consts=ol_consts(O2, B2, ["v1"], 2, 2, 2, 1), overrides=QUICK_AMTS, timeout=600),
     dict(name="mc2join", tiers=["quick", "thorough"], consts=ol_consts(O2, B2, ["v1"], 2, 2, 1, 0, slashop=False, ages=2, ops=3, vals=["v1"]),
          overrides=DEV_AMTS, timeout=600),
-    dict(name="mc2deep", tiers=["thorough"], consts=ol_consts(O2, B2, V2, 3, 3, 2, 2), overrides=QUICK_AMTS, timeout=1500),
-    dict(name="mc2full", tiers=["thorough"], consts=ol_consts(O2, B2, V2, 2, 2, 2, 1), overrides=FULL_AMTS, timeout=1500),
-    dict(name="mc2rew", tiers=["thorough"], consts=ol_consts(O2, B2, ["v1"], 2, 2, 2, 1, rewards=2, slashop=False),
+    dict(name="mc2deep", tiers=["thorough"], consts=ol_consts(O2, B2, V2, 3, 3, 2, 1), overrides=QUICK_AMTS, timeout=1500),
+    dict(name="mc2full", tiers=["thorough"], consts=ol_consts(O2, B2, V2, 2, 2, 1, 1), overrides=FULL_AMTS, timeout=1500),
+    dict(name="mc2rew", tiers=["thorough"], consts=ol_consts(O2, B2, ["v1"], 2, 2, 2, 1, rewards=1, slashop=False),
          overrides=QUICK_AMTS, timeout=1500),
     dict(name="mc3", tiers=["thorough"], consts=ol_consts(O3, B3, ["v1"], 3, 2, 1, 1, slashop=False), overrides=DEV_AMTS, timeout=1500),
 ]
@@ -64,15 +64,16 @@ OL_GEN = [
          consts=ol_consts(O2, B2, ["v1"], 2, 2, 1, 0, slashop=False, ages=2, ops=3, vals=["v1"]), overrides=DEV_AMTS,
          harness=[ol_harness("eth", O2, B2, vals=["v1"])], shards=14, rej_sample=1, timeout=600,
          may_never_succeed=("Unbond", "ReDelegate", "WithdrawReward")),   # no TimePasses, one validator in this configuration
-    # every operation of the alphabet (accepted or not) in every state, both validators, all amounts
-    dict(name="gen2full", tiers=["thorough"], consts=ol_consts(O2, B2, V2, 2, 2, 1, 1), overrides=FULL_AMTS,
+    # every operation of the alphabet (accepted or not) in every state, all amounts
+    dict(name="gen2full", tiers=["thorough"], consts=ol_consts(O2, B2, ["v1"], 2, 2, 1, 1), overrides=FULL_AMTS,
          harness=[ol_harness("eth", O2, B2)], shards=16, rej_sample=0, timeout=1500),
     # deeper histories, rejected operations sampled
-    dict(name="gen2deep", tiers=["thorough"], consts=ol_consts(O2, B2, ["v1"], 2, 2, 2, 1), overrides=QUICK_AMTS,
+    dict(name="gen2deep", tiers=["thorough"], consts=ol_consts(O2, B2, ["v1"], 2, 2, 2, 1, slashop=False), overrides=DEV_AMTS,
          harness=[ol_harness("bsc", O2, B2)], shards=16, rej_sample=2, timeout=1500),
     # staking rewards: Reward / WithdrawReward
-    dict(name="gen2rew", tiers=["thorough"], consts=ol_consts(O2, B2, ["v1"], 2, 2, 1, 1, rewards=1, slashop=False), overrides=QUICK_AMTS,
-         harness=[ol_harness("eth", O2, B2)], shards=16, rej_sample=2, timeout=1500),
+    dict(name="gen2rew", tiers=["thorough"], consts=ol_consts(O2, B2, ["v1"], 2, 2, 1, 0, rewards=1, slashop=False), overrides=DEV_AMTS,
+         harness=[ol_harness("eth", O2, B2)], shards=16, rej_sample=2, timeout=1500,
+         may_never_succeed=("Unbond",)),   # no TimePasses in this configuration
     # three oracles competing for three bridger and two external addresses: full life cycle, every operation in every state
     dict(name="gen3", tiers=["thorough"], consts=ol_consts(O3, B3, ["v1"], 3, 2, 0, 1, slashop=False), overrides=DEV_AMTS,
          harness=[ol_harness("eth", O3, B3)], shards=16, rej_sample=0, timeout=1500,
